@@ -427,6 +427,14 @@ def _calc_am(frclim, ode, c):
         return frclim.calcAM(S, c["freq"])
 
 
+def _eig_grade(c):
+    """tolerance factor for the deliberately stiff family (one dashpot of 1.5 .. 6 times critical in a lightly damped
+    structure, so that the roots mix real and complex eigenvalues): every route loses digits there (measured: up to 2e-6
+    relative, uncorrelated with the conditioning of the eigenvectors SolveUnc computes), so these cases are compared at
+    1e-5; what this family is for - a wrong set of modes, a missing conjugate - is an O(1) error"""
+    return 1e4 if c.get("stiff") else 1.0
+
+
 def _compare_am(ctx, stream, c, inp, am, model, cond, extra_ok=None):
     """entry-wise comparison per frequency; frequencies beyond the conditioning domain are skipped"""
     nf = len(c["freq"])
@@ -441,9 +449,7 @@ def _compare_am(ctx, stream, c, inp, am, model, cond, extra_ok=None):
         sc = np.abs(model[:, j, :]).max()
         e = np.abs(am[:, j, :] - model[:, j, :]).max() / max(sc, 1e-300)
         worst = max(worst, e)
-        # a heavy local dashpot mixes real and complex roots: the eigen-solver based routes lose about three more digits
-        # there (measured), so those cases are compared at 1e-6 (a wrong mode set is an O(1) error)
-        if not e <= TOL * (1e3 if c.get("stiff") else 1.0) * max(1.0, cond[j] / 100):
+        if not e <= TOL * _eig_grade(c) * max(1.0, cond[j] / 100):
             ctx.disagree(stream, inp, {"freq_index": j, "impl": _enc(am[:, j, :])},
                          {"model": _enc(model[:, j, :]), "relerr": float(e), "cond": float(cond[j])})
             break
@@ -824,7 +830,7 @@ def _replay_input_raw(inp, frclim, ode):
             r = c["T"].shape[0]
             _chk(fails, "calcAM-drm-%s-vs-definition-%s" % (c["route"], "multi-dof" if r > 1 else "single-dof"),
                  "calcAM differs from inv(T Z^-1 T' (-W^2)) computed with numpy", inp, am, ref, cond, 1,
-                 tol=TOL * (1e3 if inp.get("stiff") else 1.0))
+                 tol=TOL * _eig_grade(inp))
             return _fdict(fails[0]) if fails else None
         if kind == "calcAM-pv":
             # model-free meaning of the partition form: enforce unit boundary accelerations on the
